@@ -12,6 +12,7 @@ import (
 	"fmt"
 	"os"
 	"path/filepath"
+	"regexp"
 	"sort"
 	"strings"
 	"time"
@@ -20,6 +21,8 @@ import (
 
 	"verifharness/internal/common"
 )
+
+var docRowRE17 = regexp.MustCompile(`(?m)^\|:(heavy|white)_check_mark:\[(\w+)\]`)
 
 func envWithout(env []string, drop ...string) []string {
 	var out []string
@@ -196,4 +199,76 @@ func envFaultStage(meta *common.Meta, outDir string) int {
 	}
 	meta.Distribution["env_fault_outcomes"] = classes
 	return len(jobs)
+}
+
+// defaultSelections: the default-enabled marks of docs/overview.md against what EVERY front-end enables when it is
+// given no selection flag — `check -v` of both CLI mains, `-debug-init` of both analysis binaries — and the front-ends
+// against each other.
+func defaultSelections(meta *common.Meta, outDir string) int {
+	ws := filepath.Join(outDir, "defws")
+	os.RemoveAll(ws)
+	defer os.RemoveAll(ws)
+	common.WriteFile(filepath.Join(ws, "go.mod"), "module defws\n\ngo 1.20\n")
+	common.WriteFile(filepath.Join(ws, "a.go"), "package defws\n\nfunc F(n int) int { return n }\n")
+	data, err := os.ReadFile(filepath.Join(common.RepoDir, "docs", "overview.md"))
+	if err != nil {
+		meta.Notes = append(meta.Notes, "default selections: "+err.Error())
+		return 0
+	}
+	marked := map[string]bool{}
+	var markedOn []string
+	for _, m := range docRowRE17.FindAllStringSubmatch(string(data), -1) {
+		marked[m[2]] = m[1] == "heavy"
+		if m[1] == "heavy" {
+			markedOn = append(markedOn, m[2])
+		}
+	}
+	sort.Strings(markedOn)
+	sets := map[string][]string{}
+	runs := 0
+	for _, exe := range []string{"go-critic", "gocritic", "go-critic-analysis", "gocritic-analysis"} {
+		args := []string{"check", "-v", "./..."}
+		if strings.HasSuffix(exe, "-analysis") {
+			args = []string{"-debug-init", "./..."}
+		}
+		out, _, err := common.Run(120*time.Second, ws, common.GoEnv(), filepath.Join(common.BinDir(), exe), args...)
+		runs++
+		if err != nil {
+			meta.Fail("C17/"+exe+"/default-selection-run", err.Error(), args)
+			continue
+		}
+		seen := map[string]bool{}
+		var got []string
+		for _, l := range strings.Split(out, "\n") {
+			if i := strings.Index(l, "debug: "); i >= 0 && strings.HasSuffix(l, " is enabled") {
+				n := strings.TrimSuffix(l[i+len("debug: "):], " is enabled")
+				if !seen[n] {
+					seen[n] = true
+					got = append(got, n)
+				}
+			}
+		}
+		sort.Strings(got)
+		sets[exe] = got
+		var onlyRun, onlyMarked []string
+		for _, n := range got {
+			if !marked[n] {
+				onlyRun = append(onlyRun, n)
+			}
+		}
+		for _, n := range markedOn {
+			if !seen[n] {
+				onlyMarked = append(onlyMarked, n)
+			}
+		}
+		if len(onlyRun)+len(onlyMarked) > 0 {
+			meta.Fail("C17/docs/default-mark-disagrees", fmt.Sprintf("%s with no selection flag enables %d checkers, docs/overview.md marks %d as enabled by default; enabled but not marked: %v; marked but not enabled: %v", exe, len(got), len(markedOn), onlyRun, onlyMarked), map[string]interface{}{"exe": exe, "args": args, "enabled_not_marked": onlyRun, "marked_not_enabled": onlyMarked})
+		}
+	}
+	for _, exe := range []string{"gocritic", "go-critic-analysis", "gocritic-analysis"} {
+		if sets[exe] != nil && sets["go-critic"] != nil && strings.Join(sets[exe], ",") != strings.Join(sets["go-critic"], ",") {
+			meta.Fail("C17/frontends/default-selections-differ", fmt.Sprintf("with no selection flag %s enables %d checkers, go-critic %d", exe, len(sets[exe]), len(sets["go-critic"])), map[string]interface{}{"exe": exe})
+		}
+	}
+	return runs
 }
